@@ -85,7 +85,7 @@ func c19(r *Run) {
 		})
 	}
 	if len(atomicField)+len(atomicElem) < 12 {
-		broken("ANCHOR-LOST C19: only %d atomically accessed fields found", len(atomicField)+len(atomicElem))
+		r.absentf(" C19: only %d atomically accessed fields found", len(atomicField)+len(atomicElem))
 	}
 	// struct types that contain an atomic field (for whole-struct copies)
 	atomicStructs := map[string][]string{}
@@ -231,7 +231,7 @@ func c19(r *Run) {
 	}
 	// connection.maxSize / bookSize: poller callbacks, Release under the slot token, init
 	{
-		ro := rolesOf(w)
+		ro := r.roles()
 		tokA := func(i ssa.Instruction) bool { return false }
 		_ = tokA
 		seenAdaptive := map[string]bool{}
@@ -350,7 +350,7 @@ func c19Race(r *Run) {
 		}
 	}
 	if len(declared) < 20 {
-		broken("ANCHOR-LOST C19: only %d SafeLinkBuffer methods", len(declared))
+		r.absentf(" C19: only %d SafeLinkBuffer methods", len(declared))
 	}
 	// (a) every override: Lock; defer Unlock; delegate same name, same args
 	var names []string
